@@ -142,11 +142,11 @@ def oracle(job, o):
 
 # ---------------------------------------------------------------- case enumeration
 def programs(level, data_ok):
-    ops = ['g1', 'g2', 'g0', 'g5', 'z']
+    ops = ['g1', 'g2', 'g0', 'g5', 'z', 'g4294967295']       # the last delta wraps the 32-bit page sum: must fail like g5 and change nothing
     if level == 'single':
         return [[o] for o in ops]
     if level == 'quick':
-        p = [[o] for o in ops] + [['g1', 'z'], ['z', 'g1'], ['g1', 'g1'], ['g2', 'g1'], ['g1', 'g2'], ['g5', 'g1'], ['g0', 'g1'], ['z', 'z']]
+        p = [[o] for o in ops] + [['g1', 'z'], ['z', 'g1'], ['g1', 'g1'], ['g2', 'g1'], ['g1', 'g2'], ['g5', 'g1'], ['g0', 'g1'], ['z', 'z'], ['g4294967295', 'g1'], ['g4294967295', 'z']]
     else:
         p = [[o] for o in ops] + [list(x) for x in itertools.product(ops, repeat=2)]
     return p
@@ -241,7 +241,7 @@ def main(tier):
         mx = mclib.Matrix(chk, [REPO] + [built[m][1] for m in mems], projection=projection)
         mx.run(jobs, oracle, deadline_at)
         mx.report('checks/c18.py', lambda ex, r, key: True)
-        mx.fill_coverage('case = (memory limits, one operation list per thread over {grow 1,2,0,5, size, i32.store/i32.load of an own cell}); every interleaving of the '
+        mx.fill_coverage('case = (memory limits, one operation list per thread over {grow 1,2,0,5,2^32-1, size, i32.store/i32.load of an own cell}); every interleaving of the '
                          'scheduling points (harness yield before each operation, mutex lock/unlock inside wasmMemoryGrow) up to the preemption bound is executed on the real '
                          'translated code in a plain, a TSan and an ASan build; distinct_nontrivial = cases whose schedules produce more than one distinct '
                          '(per-thread results, final descriptor) combination - the order of events alone does not count -, i.e. the threads really collided')
